@@ -228,6 +228,52 @@ func runChainCase(r *lib.Run, idx int) {
 		}
 	}
 	run("memory", memory.New(), nil)
+	// The block-producer path: the node does not Store blocks it was given, it FINALISES them itself
+	// with a block signer (sequencer mode): Finalise computes roots, commitments and hash, has the
+	// block signed and stores it. What the accessors return must be the block as finalised -
+	// signature included.
+	if idx%2 == 0 {
+		signer := func(blockHash, commitment *felt.Felt) ([]*felt.Felt, error) {
+			return []*felt.Felt{new(felt.Felt).Add(blockHash, chain.F(1)), new(felt.Felt).Add(commitment, chain.F(2))}, nil
+		}
+		st := memory.New()
+		node := chain.NewNode(st, newState)
+		sexp := make([]*expBlock, 0, k)
+		okSeq := true
+		for i, blk := range c.Blocks {
+			cp := chain.CloneBlk(blk)
+			cp.Block.Signatures = nil
+			if err := node.BC.Finalise(cp.Block, cp.SU, cp.Classes, signer); err != nil {
+				r.Violation("finalise-refused-valid-block", idx, fmt.Sprintf("[memory %s] Finalise (with signer) of generated block %d failed: %v", cfg, i, err), exp[i].Desc)
+				okSeq = false
+				break
+			}
+			if !cp.Block.Hash.Equal(blk.Block.Hash) {
+				r.Violation("finalise-computes-another-hash", idx, fmt.Sprintf("[memory %s] block %d finalised by a second node has hash %s, the builder computed %s", cfg, i, cp.Block.Hash, blk.Block.Hash), exp[i].Desc)
+				okSeq = false
+				break
+			}
+			if len(cp.Block.Signatures) != 1 {
+				r.Violation("finalise-did-not-sign", idx, fmt.Sprintf("[memory %s] block %d: %d signatures after Finalise with a signer", cfg, i, len(cp.Block.Signatures)), exp[i].Desc)
+				okSeq = false
+				break
+			}
+			sexp = append(sexp, expOfBlk(cp))
+		}
+		if okSeq {
+			if idx%4 == 0 {
+				node.Restart(false)
+			}
+			e := &env{r: r, idx: idx, layer: "chain", dbn: "memory+finalised-with-signer", cfg: cfg, st: st, bc: node.BC}
+			for i := range sexp {
+				e.others = nil
+				e.checkBlock(sexp[i], i == k-1)
+			}
+			r.Eval(e.evals)
+			r.Count("chain/comparisons/finalised-with-signer", e.evals)
+			r.Count("chain/blocks_finalised_with_a_signer", len(sexp))
+		}
+	}
 	pst, dir, err := openPebble()
 	if err != nil {
 		r.Inconclusive("pebble open: " + err.Error())
